@@ -85,10 +85,20 @@ pub fn gen_str_pattern(rng: &mut Rng, cfg: &GenCfg) -> String {
         4 => "*".to_string(),
         5 => format!("?{}", rng.pick(REGEXES)),
         _ => {
+            // quoted literal; the content may itself look like a pattern
+            let content = match rng.below(8) {
+                0 => format!("{}*", needle),
+                1 => format!("*{}", needle),
+                2 => format!("*{}*", needle),
+                3 => "*".to_string(),
+                4 => format!("?{}", needle),
+                5 => format!(">{}", rng.below(9)),
+                _ => needle,
+            };
             if rng.chance(50) {
-                format!("\"{}\"", needle)
+                format!("\"{}\"", content)
             } else {
-                format!("'{}'", needle)
+                format!("'{}'", content)
             }
         }
     };
@@ -195,9 +205,44 @@ pub fn gen_entry(rng: &mut Rng, cfg: &GenCfg, depth: usize) -> (Key, RVal) {
     if want_list {
         let n = 1 + rng.below(cfg.max_list);
         let mut ms: Vec<RVal> = vec![];
-        for _ in 0..n {
-            let allow_map = modi == KMod::None || quant;
-            ms.push(gen_scalar(rng, cfg, &castm, depth, allow_map));
+        if matches!(castm, KMod::None | KMod::Str) && rng.chance(18) {
+            // a "family": one text under several pattern kinds (members that only differ in kind,
+            // case flag or wildcard placement are where batching and rewriting can slip)
+            let w = loop {
+                let w = word(rng);
+                if !w.is_empty() {
+                    break w;
+                }
+            };
+            let regex_family = cfg.regex && rng.chance(40);
+            for _ in 0..(n + 1) {
+                let body = if regex_family {
+                    match rng.below(7) {
+                        0 => format!("?{}", w),
+                        1 => format!("?.*{}", w),
+                        2 => format!("?{}.*", w),
+                        3 => format!("?.*{}.*", w),
+                        4 => format!("?^{}", w),
+                        5 => format!("?{}$", w),
+                        _ => format!("?{}", rng.pick(REGEXES)),
+                    }
+                } else {
+                    match rng.below(6) {
+                        0 => w.clone(),
+                        1 => format!("{}*", w),
+                        2 => format!("*{}", w),
+                        3 => format!("*{}*", w),
+                        4 => format!("'{}'", w),
+                        _ => gen_str_pattern(rng, cfg),
+                    }
+                };
+                ms.push(RVal::Str(if cfg.insens && rng.chance(25) { format!("i{}", body) } else { body }));
+            }
+        } else {
+            for _ in 0..n {
+                let allow_map = modi == KMod::None || quant;
+                ms.push(gen_scalar(rng, cfg, &castm, depth, allow_map));
+            }
         }
         if quant {
             // the loader demands one member class under a quantifier
